@@ -164,8 +164,15 @@ func JunkProgram(intn func(int) int) string {
 	}
 	np := 1 + intn(3)
 	for i := 0; i < np; i++ {
-		if intn(8) == 1 && len(j.funs) > 0 {
-			fmt.Fprintf(&sb, "exec %s()\n", j.pick(j.funs))
+		if intn(8) == 1 {
+			// exec of a defined function (any arity), of a name that is no function at all, of a channel name
+			f := "g"
+			if len(j.funs) > 0 && intn(3) != 0 {
+				f = j.pick(j.funs)
+			} else if intn(2) == 1 {
+				f = j.pick(j.names)
+			}
+			fmt.Fprintf(&sb, "exec %s()\n", f)
 			continue
 		}
 		prov := j.pick(j.names)
